@@ -293,7 +293,7 @@ impl<'a> Nested<'a> {
         })
     }
     fn elem<T: ?Sized + Serialize>(&mut self, value: &T) -> R<()> {
-        let t = value.serialize(TokSer { seq: None })?;
+        let t = value.serialize(LeafSer)?;
         if let Some(rec) = self.seq.as_mut() {
             if rec.seq_n < FMAX {
                 rec.seq[rec.seq_n] = t;
@@ -379,6 +379,174 @@ impl<'a> ser::SerializeStructVariant for Nested<'a> {
     }
     fn end(self) -> R<Tok> {
         self.finish()
+    }
+}
+
+/// Serializer for elements two levels down: scalars and strings are recorded, compound
+/// values are only classified (their children are not visited), which keeps the call graph
+/// finite for recursive types such as serde_json::Value.
+pub struct LeafSer;
+
+pub struct LeafAgg {
+    kind: u8,
+}
+
+impl LeafAgg {
+    fn done(self) -> R<Tok> {
+        Ok(Tok::new(self.kind))
+    }
+}
+
+impl ser::Serializer for LeafSer {
+    type Ok = Tok;
+    type Error = SErr;
+    type SerializeSeq = LeafAgg;
+    type SerializeTuple = LeafAgg;
+    type SerializeTupleStruct = LeafAgg;
+    type SerializeTupleVariant = LeafAgg;
+    type SerializeMap = LeafAgg;
+    type SerializeStruct = LeafAgg;
+    type SerializeStructVariant = LeafAgg;
+
+    fn serialize_bool(self, v: bool) -> R<Tok> {
+        Ok(Tok::boolean(v))
+    }
+    scalar!(serialize_i8, i8, NUM);
+    scalar!(serialize_i16, i16, NUM);
+    scalar!(serialize_i32, i32, NUM);
+    scalar!(serialize_i64, i64, NUM);
+    scalar!(serialize_u8, u8, NUM);
+    scalar!(serialize_u16, u16, NUM);
+    scalar!(serialize_u32, u32, NUM);
+    scalar!(serialize_u64, u64, NUM);
+    scalar!(serialize_f32, f32, NUM);
+    scalar!(serialize_f64, f64, NUM);
+    scalar!(serialize_char, char, OTHER);
+    scalar!(serialize_bytes, &[u8], OTHER);
+    fn serialize_str(self, v: &str) -> R<Tok> {
+        Ok(tok_of_str(v))
+    }
+    fn serialize_none(self) -> R<Tok> {
+        Ok(Tok::new(UNIT))
+    }
+    fn serialize_some<T: ?Sized + Serialize>(self, _value: &T) -> R<Tok> {
+        Ok(Tok::new(OTHER))
+    }
+    fn serialize_unit(self) -> R<Tok> {
+        Ok(Tok::new(UNIT))
+    }
+    fn serialize_unit_struct(self, _name: &'static str) -> R<Tok> {
+        Ok(Tok::new(UNIT))
+    }
+    fn serialize_unit_variant(self, _n: &'static str, _i: u32, variant: &'static str) -> R<Tok> {
+        Ok(tok_of_str(variant))
+    }
+    fn serialize_newtype_struct<T: ?Sized + Serialize>(self, _n: &'static str, _value: &T) -> R<Tok> {
+        Ok(Tok::new(OTHER))
+    }
+    fn serialize_newtype_variant<T: ?Sized + Serialize>(
+        self,
+        _n: &'static str,
+        _i: u32,
+        _v: &'static str,
+        _value: &T,
+    ) -> R<Tok> {
+        Ok(Tok::new(OTHER))
+    }
+    fn serialize_seq(self, _len: Option<usize>) -> R<LeafAgg> {
+        Ok(LeafAgg { kind: SEQ })
+    }
+    fn serialize_tuple(self, _len: usize) -> R<LeafAgg> {
+        Ok(LeafAgg { kind: SEQ })
+    }
+    fn serialize_tuple_struct(self, _n: &'static str, _len: usize) -> R<LeafAgg> {
+        Ok(LeafAgg { kind: SEQ })
+    }
+    fn serialize_tuple_variant(self, _n: &'static str, _i: u32, _v: &'static str, _len: usize) -> R<LeafAgg> {
+        Ok(LeafAgg { kind: SEQ })
+    }
+    fn serialize_map(self, _len: Option<usize>) -> R<LeafAgg> {
+        Ok(LeafAgg { kind: MAP })
+    }
+    fn serialize_struct(self, _n: &'static str, _len: usize) -> R<LeafAgg> {
+        Ok(LeafAgg { kind: STRUCT })
+    }
+    fn serialize_struct_variant(self, _n: &'static str, _i: u32, _v: &'static str, _len: usize) -> R<LeafAgg> {
+        Ok(LeafAgg { kind: STRUCT })
+    }
+}
+
+impl ser::SerializeSeq for LeafAgg {
+    type Ok = Tok;
+    type Error = SErr;
+    fn serialize_element<T: ?Sized + Serialize>(&mut self, _value: &T) -> R<()> {
+        Ok(())
+    }
+    fn end(self) -> R<Tok> {
+        self.done()
+    }
+}
+impl ser::SerializeTuple for LeafAgg {
+    type Ok = Tok;
+    type Error = SErr;
+    fn serialize_element<T: ?Sized + Serialize>(&mut self, _value: &T) -> R<()> {
+        Ok(())
+    }
+    fn end(self) -> R<Tok> {
+        self.done()
+    }
+}
+impl ser::SerializeTupleStruct for LeafAgg {
+    type Ok = Tok;
+    type Error = SErr;
+    fn serialize_field<T: ?Sized + Serialize>(&mut self, _value: &T) -> R<()> {
+        Ok(())
+    }
+    fn end(self) -> R<Tok> {
+        self.done()
+    }
+}
+impl ser::SerializeTupleVariant for LeafAgg {
+    type Ok = Tok;
+    type Error = SErr;
+    fn serialize_field<T: ?Sized + Serialize>(&mut self, _value: &T) -> R<()> {
+        Ok(())
+    }
+    fn end(self) -> R<Tok> {
+        self.done()
+    }
+}
+impl ser::SerializeMap for LeafAgg {
+    type Ok = Tok;
+    type Error = SErr;
+    fn serialize_key<T: ?Sized + Serialize>(&mut self, _key: &T) -> R<()> {
+        Ok(())
+    }
+    fn serialize_value<T: ?Sized + Serialize>(&mut self, _value: &T) -> R<()> {
+        Ok(())
+    }
+    fn end(self) -> R<Tok> {
+        self.done()
+    }
+}
+impl ser::SerializeStruct for LeafAgg {
+    type Ok = Tok;
+    type Error = SErr;
+    fn serialize_field<T: ?Sized + Serialize>(&mut self, _key: &'static str, _value: &T) -> R<()> {
+        Ok(())
+    }
+    fn end(self) -> R<Tok> {
+        self.done()
+    }
+}
+impl ser::SerializeStructVariant for LeafAgg {
+    type Ok = Tok;
+    type Error = SErr;
+    fn serialize_field<T: ?Sized + Serialize>(&mut self, _key: &'static str, _value: &T) -> R<()> {
+        Ok(())
+    }
+    fn end(self) -> R<Tok> {
+        self.done()
     }
 }
 
